@@ -303,7 +303,8 @@ fn permutations(items: &[usize], limit: usize) -> Vec<Vec<usize>> {
 /// when there are few, otherwise proptest-shuffled ones.
 pub fn schedules(prog: &Prog, budget: usize, seed: u64) -> (Vec<Schedule>, bool) {
     let steps = prog.max_steps();
-    let names = [None, Some("main".to_string()), Some("w_join_3".to_string()), Some("odd name-1".to_string())];
+    // (the empty name is a name: `_join_<i>`; a non-ASCII one; five choices against three gate positions)
+    let names = [None, Some("main".to_string()), Some("w_join_3".to_string()), Some("odd name-1".to_string()), Some(String::new()), Some("\u{43f}\u{43e}\u{442}\u{43e}\u{43a} \u{4e3b}".to_string()), None];
     let per_step: Vec<Vec<Vec<usize>>> = (0..steps).map(|s| permutations(&prog.active(s), 24)).collect();
     let total: usize = per_step.iter().map(|p| p.len()).product();
     let mut out = Vec::new();
